@@ -501,6 +501,42 @@ def parse_rules(ck, c):
                         ck.ob("CMP", p, "input-slice-end-exact@%d" % n, rel == "Gt",
                               "rejects exactly when position + length exceeds the input" if rel == "Gt" else "rejects when end %s input length: a value that ends exactly at the end of the input is refused (or an overlong one admitted)" % rel, f.loc(cx["bb"]))
     ck.floor("CMP", "input slice bounds in the parser", n, 2)
+    # ... and they are ordered: `input[a..b]` with two computed ends panics when b < a. Either b is a plus something
+    # non-negative by construction, or a dominating refusal establishes a <= b
+    no_ = 0
+    for p in sorted(c.paths()):
+        if not re.search(r"concordium_wasm::parse::", p):
+            continue
+        for b in c.get_all(p):
+            f = Fn(b)
+            for k, (bi, t) in enumerate(f.calls(r"ops::Index::index$")):
+                rb = rules.range_bounds(f, t["args"][1])
+                if rb is None or rb[0] != "range" or op_const(rb[1]) is not None:
+                    continue
+                ls, le = rules.lin(f, rb[1]), rules.lin(f, rb[2])
+                no_ += 1
+                ok = ls is not None and le is not None and rules.lin_le(ls, le, {})
+                why = "end = start + a non-negative amount"
+                if not ok and ls is not None and le is not None:
+                    # a dominating refusal that orders them
+                    for cx in rules.comparisons(f):
+                        if cx["kind"] != "bin" or not f.dominates(cx["bb"], bi):
+                            continue
+                        info = {}
+                        rel, d = rules.cmp_rejects(f, cx, info)
+                        if rel is None or "pass_target" not in info or not f.dominates(info["pass_target"], bi):
+                            continue
+                        la, lb = rules.lin(f, cx["a"]), rules.lin(f, cx["b"])
+                        if la is None or lb is None:
+                            continue
+                        # refuses when a `rel` b; passing therefore means not(a rel b)
+                        if rel in ("Gt", "Ge") and rules.lin_le(ls, la, {}) and rules.lin_le(lb, le, {}):
+                            ok, why = True, "ordered by the refusal at bb%d" % cx["bb"]      # start <= a <= b <= end
+                        if rel in ("Lt", "Le") and rules.lin_le(ls, lb, {}) and rules.lin_le(la, le, {}):
+                            ok, why = True, "ordered by the refusal at bb%d" % cx["bb"]      # start <= b <= a <= end
+                ck.ob("BOUNDS", p, "input-slice-ordered#%d" % k, ok, why if ok else
+                      "the two ends of a slice of the input are computed independently and nothing establishes start <= end: a crafted size makes the parser panic", f.loc(bi))
+    ck.floor("BOUNDS", "two-ended slices of the input in the parser", no_, 2)
     f = getfn(ck, "sc", W, W + "::parse::parse_skeleton")
     if f:
         # the 'Section out of place' error is reached only if the section is not custom AND not greater than the last one
